@@ -112,6 +112,12 @@ MUTANTS = [
     ('C11', 'primary-close-checks-secondaries-late', CN,
      "            for connection in self.connections.values():\n                if not connection._needs_to_join:\n                    raise ConnectionStateError(\n                        \"Cannot close a connection joined to a transaction\")\n",
      "            pass\n"),
+    ('C11', 'abort-savepoint-invalidates-objects-about-to-be-disowned', CN,
+     "        self._cache.invalidate([oid for oid in src.index\n                                if oid not in self._creating])",
+     "        self._cache.invalidate(src.index)"),
+    ('C12', 'abort-skips-creating-when-savepoints-exist', CN,
+     "            self._abort(self._savepoint_storage.creating)\n            self._abort_savepoint()\n        else:\n            self._abort()\n\n        self._invalidate_creating()",
+     "            self._abort(self._savepoint_storage.creating)\n            self._abort_savepoint()\n        else:\n            self._abort()\n            self._invalidate_creating()"),
     ('C13', 'undo-compares-blob-records-only', FS,
      "                    if data_to_be_undone != current_data or \\\n                            self.is_blob_record(current_data):",
      "                    if data_to_be_undone != current_data:"),
